@@ -4,6 +4,7 @@ Exit codes of a check: 0 = property held on everything explored (KNOWN-FINDING l
 1 = violation (always with a `VIOLATION property=<id> replay=<path>` line and a replay file),
 2 = tool error / time-out (never a verdict).
 """
+import threading
 import json, os, re, shutil, subprocess, sys, time, signal
 
 VERIF = os.path.dirname(os.path.dirname(os.path.abspath(__file__)))
@@ -67,7 +68,7 @@ def tlc(module, cfg, work, env=None, workers=None, timeout=900, simulate=None, d
     """Run TLC on spec/<module> (a path relative to SPEC) with the given cfg (relative to the module's dir)."""
     mod_path = os.path.join(SPEC, module)
     cwd = os.path.dirname(mod_path)
-    meta = work.path("tlc-%d" % int(time.time() * 1000))
+    meta = work.path("tlc-%d-%d" % (int(time.time() * 1000), threading.get_ident() % 100000))
     javaopts = ["-XX:+UseParallelGC", "-Xss1g", "-Xmx" + xmx, "-DTLA-Library=" + SPEC]
     if deque:
         javaopts.append("-Dtlc2.tool.queue.IStateQueue=StateDeque")
